@@ -42,6 +42,20 @@ ASSUMPTIONS += [
     "columns of every grouping factor read from the derived object must be independent and span the "
     "same reference space",
 ]
+ASSUMPTIONS += [
+    "re-evaluation stage (the lower-level public entry point): for a share of the designs ONE model "
+    "description, formulae.model_description(formula), is evaluated twice, "
+    "formulae.matrices.DesignMatrices(model, first frame, env) and then DesignMatrices(model, second "
+    "frame, env) on the same Model object, where the second frame is the first with its rows permuted, "
+    "a bootstrap resample of it, the first with the values of the grouping variables relabelled / "
+    "reassigned to other rows / one group merged into another, or a frame generated afresh of the same "
+    "or of another length (frames restricted to the variables the formula uses, no missing values: "
+    "what design_matrices hands over); the SECOND design is judged by the same block-structure "
+    "predicate Spec.C05.check (groups, blocks, rows in one group, labels) computed by Lean from the "
+    "second frame, with the effect columns read from the second design's own terms; a second "
+    "evaluation that raises where design_matrices(formula, second frame) gives a design is a failure; "
+    "terms of the class D30 are not judged in this stage (counted)",
+]
 TRUSTED = ["scipy.linalg.khatri_rao is modelled by the row product (Model/Matrices.lean:khatriRao)"]
 
 EFFECTS = ["1", "x", "f", "x + f", "0 + f", "f:x", "z", "0 + x", "h", "center(x)", "x + z", "C(k)",
@@ -411,6 +425,109 @@ def judge_new(res, owners_new, reqs_new):
                            "new[name]: " + ", ".join(bad) + " violated"})
 
 
+SECOND_FRAMES = ["permuted", "resampled", "relabelled", "reassigned", "merged", "fresh-same-length",
+                 "fresh-other-length"]
+
+
+def second_frame(r, df, kind):
+    """another frame for the second evaluation of one model description"""
+    n = len(df)
+    if kind == "permuted":
+        idx = list(range(n))
+        r.shuffle(idx)
+        return designs.scramble_index(r, df.iloc[idx])
+    if kind == "resampled":
+        return designs.scramble_index(r, df.iloc[[r.randrange(n) for _ in range(n)]])
+    if kind == "fresh-same-length":
+        return designs.gen_frame(r, n=n)
+    if kind == "fresh-other-length":
+        return designs.gen_frame(r, n=r.choice([m for m in range(10, 31) if m != n]))
+    out = df.copy()
+    for v in ("g", "h", "k", "cu", "co", "f"):
+        col = out[v]
+        is_cat = isinstance(col.dtype, pd.CategoricalDtype)
+        vals = col.tolist()
+        levels = list(col.dtype.categories) if is_cat else sorted(set(vals))
+        if kind == "relabelled" and v in ("g", "h", "k"):       # other group labels (f, cu, co: levels
+            ren = {l: (l + 20 if v == "k" else "r_" + l[::-1] + str(i % 2))   # named by effect calls)
+                   for i, l in enumerate(levels)}
+            vals = [ren[x] for x in vals]
+        elif kind == "reassigned":                                # the same labels on other rows
+            r.shuffle(vals)
+        elif kind == "merged" and len(levels) > 2 and v in ("g", "k", "cu", "co"):
+            gone, into = r.sample(levels, 2)
+            vals = [into if x == gone else x for x in vals]
+            levels = [l for l in levels if l != gone]
+        out[v] = pd.Categorical(vals, categories=levels, ordered=bool(col.dtype.ordered)) if is_cat \
+            else vals
+    return out
+
+
+def reevaluation_request(formula, df1, df2, names):
+    """one model description evaluated on df1, then on df2 -> (error class or None, c05_spec request
+    for the SECOND design or None)"""
+    from formulae import model_description
+    from formulae.environment import Environment
+    from formulae.matrices import DesignMatrices
+    from formulae.terms import Intercept
+    ns = dict(names)
+    ns.setdefault("np", np)
+    env = Environment.capture(0).with_outer_namespace(ns)
+    with warnings.catch_warnings():
+        warnings.simplefilter("ignore")
+        model = model_description(formula)
+
+        def used(d):
+            return d[[c for c in d.columns if c in model.var_names]]
+        DesignMatrices(model, used(df1), env)
+        try:
+            dm = DesignMatrices(model, used(df2), env)
+        except Exception as e:  # noqa
+            return type(e).__name__, None
+    if dm.group is None:
+        return None, None
+    terms = []
+    n = dm.group.design_matrix.shape[0]
+    for name, t in dm.group.terms.items():
+        x = np.ones(n) if isinstance(t.expr, Intercept) else t.expr.data
+        terms.append({"name": name, "factor": [str(c.name) for c in t.factor.components],
+                      "groups": list(t.groups), "x": designs.mat(x),
+                      "z": designs.mat(dm.group[name]), "labels": term_labels(t)})
+    return None, {"op": "c05_spec", "formula": formula, "frame": designs.frame_json(used(df2)),
+                  "names": designs.names_json(names), "terms": terms}
+
+
+def judge_reevaluations(res, owners, reqs):
+    if not reqs:
+        return
+    for (case, df2), rq, sp in zip(owners, reqs, ask(reqs)):
+        if "err" in sp:
+            res.count("reevaluation_spec_skip:" + sp["err"])
+            continue
+        for t, v in zip(rq["terms"], sp["terms"]):
+            if "err" in v:
+                res.count("reevaluation_term_skip:" + v["err"] + ":" + str(v.get("what"))[:30])
+                continue
+            if v.get("class_d30"):
+                res.count("reevaluation_term_skip:class-D30 (sum-coded grouping factor)")
+                continue
+            res.count("reevaluation_terms_judged")
+            res.nontrivial.add((case["formula"], case["seed_path"], "second evaluation"))
+            bad = [k for k in ("groups_ok", "blocks_ok", "rows_in_one_group") if not v[k]]
+            if v.get("labels_ok") is False:
+                bad.append("labels_ok")
+            if bad:
+                gv = sorted({c for c in t["factor"] if c in df2.columns})
+                res.failures.append({
+                    "case": case, "finding": None,
+                    "impl": {"term": t["name"], "groups": t["groups"], "labels": t.get("labels"),
+                             "second_frame": {c: [str(x) for x in df2[c].tolist()] for c in gv},
+                             "x": t["x"], "z": t["z"]},
+                    "expected": "block structure computed from the second frame",
+                    "why": f"group-specific term {t['name']} of the second DesignMatrices(model, frame, "
+                           "env) on one model description: " + ", ".join(bad)})
+
+
 def explore(tier, seed, res=None, replay=None):
     from formulae.terms import Intercept
     res = res or Result()
@@ -422,7 +539,10 @@ def explore(tier, seed, res=None, replay=None):
                 "widths / labels judged on the derived objects' per-term blocks (effect values read "
                 "from the training block where the effect's variables are unchanged); 80 (thorough: "
                 "1500) more designs with one effect over a sum / nesting of grouping factors and a "
-                "group intercept for only one of the factors; coding-rule stage on the training "
+                "group intercept for only one of the factors; for 40% of the designs one model description "
+                "(model_description + DesignMatrices) evaluated on the frame and then on a second frame "
+                "(permuted / resampled / relabelled / reassigned / merged groups / fresh), the second "
+                "design judged by the block structure; coding-rule stage on the training "
                 "matrix and on evaluate_new_data(training frame)")
     n_cases = 400 if tier == "quick" else 15000
     cases = []
@@ -437,6 +557,7 @@ def explore(tier, seed, res=None, replay=None):
             cases.append((None, f"m{i}"))
     reqs_spec, reqs_model, owners = [], [], []
     reqs_new, owners_new = [], []
+    reqs_re, owners_re = [], []
     for f, path in cases:
         r = rng_for(seed, "c05", path)
         df = designs.gen_frame(r, n=r.randrange(12, 30))
@@ -470,6 +591,32 @@ def explore(tier, seed, res=None, replay=None):
                                            rng_for(seed, "c05", "new-plain", path)):
             reqs_new.append(rq)
             owners_new.append(dict(case, **ext))
+        # re-evaluation stage: one model description evaluated on this frame, then on another one
+        rv = rng_for(seed, "c05", "re-evaluation", path)
+        u_rv, kind2 = rv.random(), rv.choice(SECOND_FRAMES)
+        if replay is not None or u_rv < 0.4:
+            df2 = second_frame(rv, df, kind2)
+            case2 = dict(case, stage="second evaluation of one model description "
+                                     "(model_description + DesignMatrices twice)", second_frame=kind2)
+            res.count("re-evaluations:" + kind2)
+            try:
+                err2, rq2 = reevaluation_request(formula, df, df2, designs.NAMES)
+            except Exception as e:  # noqa  (the FIRST evaluation through this entry point is refused)
+                err2, rq2 = None, None
+                res.count("reevaluation_first_refused:" + type(e).__name__)
+            if err2 is not None:
+                fresh, _ = designs.observe(formula, df2, designs.NAMES)
+                if "err" in fresh:
+                    res.count("reevaluation_refused_like_a_fresh_design:" + err2)
+                else:
+                    res.failures.append({
+                        "case": case2, "finding": None, "impl": {"error": err2},
+                        "expected": "a design (design_matrices(formula, second frame) gives one)",
+                        "why": f"the second DesignMatrices(model, frame, env) on one model description "
+                               f"raises {err2}"})
+            elif rq2 is not None:
+                reqs_re.append(rq2)
+                owners_re.append((case2, df2))
         if len(reqs_new) >= 600:         # (bounded memory: the requests carry the training blocks)
             judge_new(res, owners_new, reqs_new)
             reqs_new, owners_new = [], []
@@ -523,6 +670,7 @@ def explore(tier, seed, res=None, replay=None):
         if diffs:
             res.mismatches.append({"case": case, "diff": diffs[:5]})
     judge_new(res, owners_new, reqs_new)
+    judge_reevaluations(res, owners_re, reqs_re)
     if replay is None or str(replay.get("seed_path", "")).startswith("rule"):
         coding_rule_stage(res, tier, seed, {k["id"] for k in known_findings("C05")})
     return res
